@@ -41,7 +41,37 @@ pub fn gen_sess_run(check: &str, seed: u64, tier: Tier, with_probes: bool) -> Ru
             max_leaf: if big { 4 } else { 3.max(alphabet.min(4)) },
             binders: w.chance(3, 4),
         };
-        let ops = gen_history(&mut w, &p, with_probes);
+        let mut ops = gen_history(&mut w, &p, with_probes);
+        if w.chance(1, 4) {
+            // several independent symmetries on one multi-slot leaf (S3 / dihedral groups), asserted
+            // at random points of the history, plus a parent that uses the leaf twice
+            let k = *w.pick(&[3usize, 3, 4]);
+            let base: Vec<S> = (0..k as S).collect();
+            let leaf = Tm::leaf(&format!("p{k}"), base.clone());
+            for _ in 0..w.range(2, 3) {
+                let mut v = base.clone();
+                let i = w.below(k);
+                let j = (i + 1 + w.below(k - 1)) % k;
+                v.swap(i, j);
+                let other = Tm::leaf(&format!("p{k}"), v);
+                let pos = w.below(ops.len() + 1);
+                ops.insert(pos, Op::new("union").t(leaf.clone()).t(other).i(w.below(2) as i64));
+            }
+            if w.chance(1, 2) {
+                let mut v = base.clone();
+                v.swap(0, k - 1);
+                let t = Tm::node("b", vec![], vec![(vec![], leaf.clone()), (vec![], Tm::leaf(&format!("p{k}"), v))]);
+                let pos = w.below(ops.len() + 1);
+                ops.insert(pos, Op::new("add").t(t.clone()));
+                if w.chance(1, 2) {
+                    // ... and an equation that makes one of its slots redundant
+                    let sub: Vec<S> = base.iter().copied().take(k - 1).collect();
+                    let small = Tm::leaf(&format!("p{}", k - 1), sub);
+                    let pos = w.below(ops.len() + 1);
+                    ops.insert(pos, Op::new("union").t(t).t(small).i(w.below(2) as i64));
+                }
+            }
+        }
         let n = pool_size(&ops);
         if n < 40 && Cc::universe_size(n, &all_terms(&ops)) <= cap {
             run.ops = ops;
